@@ -262,6 +262,23 @@ func (sr *seqRule) segments(root *Func) []Segment {
 		}
 		emit("path", "", s.get("seq"), s, end, vals, true, "exit")
 	}
+	// an inlined callee that returns from inside its own loops leaves those loops: their entries are dropped from the
+	// stack (as a break would), the iteration left is reported as ended by "return"
+	tr.calleeRet = func(entry, s kv) kv {
+		depth := func(stk string) int {
+			if stk == "" {
+				return 0
+			}
+			return strings.Count(stk, "|") + 1
+		}
+		want := depth(entry.get("stk"))
+		for depth(s.get("stk")) > want {
+			pos, prefix, rest := top(s)
+			emit("iter", pos, s.get("seq"), s, pos, nil, false, "return")
+			s = app(s.set("stk", rest).set("seq", prefix), "loop@"+pos)
+		}
+		return s
+	}
 	tr.run(root, sr.init)
 	return segs
 }
